@@ -375,7 +375,7 @@ fn mode_simplify(case: &Value, out: &mut Vec<Value>) {
                 json!({"portfolio":pf,"strategy":st,"out":tree::formula(g, &rk),"out_text":g.to_string(),
                        "same": *g == f, "new_free": fv_out.difference(&fv_in).cloned().collect::<Vec<_>>(), "passes": passes})
             }
-            Err(p) => json!({"portfolio":pf,"strategy":st,"panic":p}),
+            Err(p) => json!({"portfolio":pf,"strategy":st,"panic":p,"passes":passes}),
         })
         .collect();
     out.push(json!({
